@@ -58,21 +58,26 @@ Inductive c07case :=
 | KRender (s : style) (e : expr) (toks : list tok) (shown : string)
     (* the harness's Python renderer and expected-tree printer against the Spec:
        render s e = toks, show_tree (tree_of (strip e)) = shown (for legal e) *)
+| KTree (s : style) (e : expr) (toks : list tok) (shown : string) (r : bres)
+    (* both at once: [KRender s e toks shown] and [KBuild (toks ++ [NEWLINE; ENDMARKER]) r] *)
 | KLegal (e : expr) (b : bool)
 | KLit (n : nit) (s : string) (k : numkind).
 
 Definition toks_eqb (a b : list tok) : bool := bool_decide (a = b).
 
+Definition build_ok (tbl : list (string * Z)) (toks : list tok) (r : bres) : bool :=
+  match build tbl toks, r with
+  | Ok t, BTree s => String.eqb (show_tree t) s
+  | Err e, BErr c => ecls_eqb (cls_of e) c
+  | _, _ => false
+  end.
+Definition render_ok (s : style) (e : expr) (toks : list tok) (shown : string) : bool :=
+  legal e && toks_eqb (render s e) toks && String.eqb (show_tree (tree_of (strip e))) shown.
 Definition c07_ok (tbl : list (string * Z)) (c : c07case) : bool :=
   match c with
-  | KBuild toks r =>
-      match build tbl toks, r with
-      | Ok t, BTree s => String.eqb (show_tree t) s
-      | Err e, BErr c => ecls_eqb (cls_of e) c
-      | _, _ => false
-      end
-  | KRender s e toks shown =>
-      legal e && toks_eqb (render s e) toks && String.eqb (show_tree (tree_of (strip e))) shown
+  | KBuild toks r => build_ok tbl toks r
+  | KRender s e toks shown => render_ok s e toks shown
+  | KTree s e toks shown r => render_ok s e toks shown && build_ok tbl (toks ++ [TOther; TEnd]) r
   | KLegal e b => eqb (legal e) b
   | KLit n s k => numkind_eqb (lit_kind n s) k
   end.
